@@ -6,7 +6,6 @@ import (
 	"fmt"
 	"slices"
 
-	"gonum.org/v1/gonum/graph"
 	"gonum.org/v1/gonum/graph/encoding"
 	"gonum.org/v1/gonum/graph/encoding/dot"
 	"gonum.org/v1/gonum/graph/multi"
@@ -175,33 +174,52 @@ type CycleInformation struct {
 	canHaveCyclesAtRuntime bool
 }
 
-func (g *AuthorizationModelGraph) nodeListHasNonComputedEdge(nodeList []graph.Node) bool {
-	for i, nodeI := range nodeList {
-		for _, nodeJ := range nodeList[i+1:] {
-			allEdges := g.Lines(nodeI.ID(), nodeJ.ID())
-			for allEdges.Next() {
-				edge, ok := allEdges.Line().(*AuthorizationModelEdge)
-				if ok && edge.edgeType != ComputedEdge {
-					return true
-				}
-			}
-		}
-	}
-
-	return false
-}
-
+// GetCycles reports whether the graph has a cycle made of computed edges only, and whether it has a cycle
+// with at least one other edge in it. Both are read off the strongly connected components - enumerating the
+// elementary cycles themselves takes factorial time on densely connected models.
 func (g *AuthorizationModelGraph) GetCycles() CycleInformation {
 	hasCyclesAtCompileTime := false
 	hasCyclesAtRuntime := false
 
 	// TODO: investigate whether len(1) should be identified as cycle
 
-	nodes := topo.DirectedCyclesIn(g)
-	for _, nodeList := range nodes {
-		if g.nodeListHasNonComputedEdge(nodeList) {
-			hasCyclesAtRuntime = true
-		} else {
+	// a cycle with an edge that is not computed: such an edge lies inside a strongly connected component
+	component := make(map[int64]int)
+
+	for index, nodeList := range topo.TarjanSCC(g) {
+		for _, node := range nodeList {
+			component[node.ID()] = index
+		}
+	}
+
+	// a cycle of computed edges only: a cycle of the graph that is left when all other edges are dropped
+	computedOnly := multi.NewDirectedGraph()
+
+	nodes := g.Nodes()
+	for nodes.Next() {
+		computedOnly.AddNode(nodes.Node())
+	}
+
+	edges := g.Edges()
+	for edges.Next() {
+		lines := g.Lines(edges.Edge().From().ID(), edges.Edge().To().ID())
+		for lines.Next() {
+			line := lines.Line()
+			if line.From().ID() == line.To().ID() {
+				continue
+			}
+
+			edge, ok := line.(*AuthorizationModelEdge)
+			if ok && edge.edgeType == ComputedEdge {
+				computedOnly.SetLine(computedOnly.NewLine(line.From(), line.To()))
+			} else if component[line.From().ID()] == component[line.To().ID()] {
+				hasCyclesAtRuntime = true
+			}
+		}
+	}
+
+	for _, nodeList := range topo.TarjanSCC(computedOnly) {
+		if len(nodeList) > 1 {
 			hasCyclesAtCompileTime = true
 		}
 	}
